@@ -18,7 +18,8 @@ Variable nodes : list nat.
 Definition deg_to (c : nat) (sub : list nat) : nat :=
   length (filter (fun v => adj c v && negb (v =? c)) sub) + (if adj c c then 2 else 0).
 
-(* growth: row index into the table of complement nodes *)
+(* growth: row index into the table of complement nodes.  [fixed = true] is the source (since commit 5c60841),
+   [fixed = false] the OLD variant that used the position inside the max-degree sub-array as a table row. *)
 Definition grow_index (fixed : bool) (s : sel) (sub : list nat) (compl : list nat) (d : nat) : option nat :=
   let degs := map (fun c => deg_to c sub) compl in
   let dmax := positions (Nat.eqb (list_max degs)) degs in
@@ -103,10 +104,16 @@ Definition resize_draws (fixed : bool) (s : sel) (tbl : list nat) (lo hi : nat) 
 Definition resize (fixed : bool) (s : sel) (tbl : list nat) (lo hi : nat) (draws : list nat) : rres :=
   fst (resize_draws fixed s tbl lo hi draws).
 
-(* nx.density of the induced subgraph as the exact fraction (2e, n(n-1)); (0,1) for n <= 1 *)
+(* the source as it stands *)
+Definition grow_index_cur := grow_index true.
+Definition resize_cur := resize true.
+
+(* nx.density of the induced subgraph as the exact fraction (2e, n(n-1)); (0,1) for n <= 1.  networkx counts a
+   self-loop as an edge here (number_of_edges), so e is the count *with* self-loops *)
+Definition edge_count_all := edge_count_pre_eefbefe.
 Definition density (sub : list nat) : nat * nat :=
   let n := length sub in
-  if n <=? 1 then (0, 1) else (2 * edge_count adj sub, n * (n - 1)).
+  if n <=? 1 then (0, 1) else (2 * edge_count_all adj sub, n * (n - 1)).
 
 End Graph.
 
